@@ -90,6 +90,7 @@ type Config struct {
 	ConcreteHash bool            // compute real SHA-256 for fully concrete preimages (selftest)
 	Known        map[string]bool // known-finding ids (vKnown)
 	Tier         string
+	ModelEvery   int // produce a model for every k-th complete path (and the first 64)
 }
 
 type Machine struct {
@@ -131,6 +132,7 @@ type Machine struct {
 	ringPos    int
 	allocated  int
 	pendingObs []pendingObs
+	pathNo     int
 }
 
 func NewMachine(prog *ssa.Program, cfg Config) (*Machine, error) {
@@ -504,6 +506,10 @@ func (m *Machine) assertV(v value, label string) {
 func (m *Machine) RunPath(fn *ssa.Function, initPkgs []*ssa.Package, trace []Dec) (res *PathResult) {
 	m.F = NewFactory()
 	m.S.Reset()
+	m.pathNo++
+	if m.cfg.ModelEvery <= 0 {
+		m.cfg.ModelEvery = 1
+	}
 	m.trace = trace
 	m.pos = 0
 	m.out = m.out[:0]
@@ -568,7 +574,7 @@ func (m *Machine) RunPath(fn *ssa.Function, initPkgs []*ssa.Package, trace []Dec
 		if m.pos < len(m.trace) {
 			panic(fmt.Sprintf("symgo: replay divergence: path ended with %d unused trace elements", len(m.trace)-m.pos))
 		}
-		if m.cfg.WantModel {
+		if m.cfg.WantModel && (m.pathNo < 64 || m.pathNo%m.cfg.ModelEvery == 0) {
 			vars := append(m.inputVars(), m.obsTerms()...)
 			r, model := m.S.CheckModel(nil, vars)
 			if r == Sat && model != nil {
